@@ -1,36 +1,57 @@
 (* C27 — remote SFTP files behave like local Python binary files.
    Property statements only; every proof is `exact <lemma from Proofs/C27_proofs.v>`.
 
-   Full statement (C27_refines), NOT proved and in fact false for the code as it is (see the
-   _refuted theorems): for every mode in {r, r+, w, w+, a, a+, x}, buffer size, initial file and
-   op sequence over read / readline / readlines / write / seek / tell / truncate / flush,
+   The unrestricted statement -- for every mode in {r, r+, w, w+, a, a+, x}, buffer size, initial
+   file and op sequence over read / readline / readlines / write / seek / tell / truncate / flush,
        fst (sf_run fuel f0 ops) = fst (ref_run r0 ops)  /\
-       final_content fuel (snd (sf_run fuel f0 ops)) = r_content (snd (ref_run r0 ops)).
-   What is proved: C27_refines_partial — the same conclusion for every DISCIPLINED op sequence
-   (reads/tell with an empty write buffer, writes with an empty read buffer, seek, flush,
-   truncate last), all modes, all buffer sizes; missing cases: readlines, truncate in the middle
-   of a program, and the undisciplined call patterns, on which the code genuinely diverges (the
-   _refuted theorems below).  sf_* is the model of SFTPFile over BufferedFile (C42) over the server handle with its
+       final_content fuel (snd (sf_run fuel f0 ops)) = r_content (snd (ref_run r0 ops))
+   -- is FALSE for the code as it is: the seven _refuted theorems below are witnesses, one per
+   registered known finding.  What is proved instead is the exact complement:
+     C27_refines_outside_findings  the statement above for EVERY program that shows none of the
+                                   seven finding shapes (boolean predicate no_finding_shape, Model/C27.v),
+     C27_shape_partition           every program either satisfies no_finding_shape or has a first
+                                   finding shape, one of the seven,
+     C27_refuted_shapes            each _refuted witness shows exactly the shape it is named after.
+   The only further hypothesis is fuel_suffices: `fuel` bounds the loops of the executable model
+   and must be large enough (a model artefact; the differential run evaluates it on every generated
+   program).  sf_* is the model of SFTPFile over BufferedFile (C42) over the server handle with its
    __tell cache; ref_* is Lib/FileSpec.v. *)
 From PV Require Import Bytes C42 C42_gen C42_proofs FileSpec C27 C27_gen C27_proofs.
 Open Scope Z_scope.
 
-(* refinement on the DISCIPLINED fragment (see `guard` / `guarded` in Model/C27.v): any program of
-   read(n) / read() / readline(size) / tell (with an empty write buffer), write (with an empty read
-   buffer), seek, flush, optionally ended by truncate (writable file, nothing pending) -- every mode
-   except the bare "x", every buffer size (unbuffered, line-buffered, block-buffered), existing or
-   missing file.  The guard is evaluated on the model state the call meets; its first conjunct
-   only says that `fuel` suffices for the model's loops.  The differential run checks that the
-   harness's disciplined programs satisfy `guarded` (run_c27_guard). *)
-Theorem C27_refines_partial :
+(* refinement for every program outside the seven known-finding shapes: all eight op kinds (read(n),
+   read(), readline(size), readlines, write, seek with the three whences incl. refused negative
+   targets, tell, truncate, flush), every mode (r, r+, w, w+, a, a+, x = paramiko "wx"), every
+   buffer size (unbuffered, line-buffered, block-buffered), existing or missing file *)
+Theorem C27_refines_outside_findings :
   forall (m : fmode) (bufsz : Z) (file : option (list Z)) (ops : list fop) (fuel : nat)
          (f0 : sfile) (r0 : rfile),
-    sf_open m bufsz file = Some f0 -> ref_open m file = Some r0 -> m <> Mxbare ->
-    guarded fuel f0 ops = true ->
+    sf_open m bufsz file = Some f0 -> ref_open m file = Some r0 ->
+    no_finding_shape m fuel f0 ops = true -> fuel_suffices fuel f0 ops = true ->
     fst (sf_run fuel f0 ops) = fst (ref_run r0 ops) /\
     final_content fuel (snd (sf_run fuel f0 ops)) = r_content (snd (ref_run r0 ops)).
-Proof. exact refines_partial. Qed.
-Print Assumptions C27_refines_partial.
+Proof. exact refines_outside_findings. Qed.
+Print Assumptions C27_refines_outside_findings.
+
+(* the shapes partition the programs *)
+Theorem C27_shape_partition :
+  forall (m : fmode) (fuel : nat) (f : sfile) (ops : list fop),
+    no_finding_shape m fuel f ops = true \/
+    exists k, first_finding m fuel f ops = Some k /\ no_finding_shape m fuel f ops = false.
+Proof. exact shape_partition. Qed.
+Print Assumptions C27_shape_partition.
+
+(* each _refuted witness below shows exactly the finding shape it is named after *)
+Theorem C27_refuted_shapes :
+  shape_of Mrp 8 (Some [10;10;121;10;121]) [FWrite [97;10;97;97]; FReadline None] = Some KReadPending /\
+  shape_of Mw 65536 (Some []) [FWrite [97;98;99]; FTell] = Some KTellPending /\
+  shape_of Mrp 0 (Some [97;10;98;10;99]) [FReadline None; FWrite [88]] = Some KWriteAfterRead /\
+  shape_of Mw 64 (Some []) [FWrite [97;98]; FTruncate 0] = Some KTruncPending /\
+  shape_of Mr 0 (Some [97;98;99]) [FTruncate 1] = Some KTruncReadOnly /\
+  shape_of Ma 0 (Some []) [FWrite [97;98]; FTruncate 0; FWrite [99]; FTell] = Some KStaleAfterTrunc /\
+  shape_of Mxbare 0 None [FWrite [97]] = Some KBareX.
+Proof. exact refuted_shapes. Qed.
+Print Assumptions C27_refuted_shapes.
 
 (* the read / seek / tell fragment under a purely static condition on the program *)
 Theorem C27_refines_read_fragment :
@@ -140,7 +161,7 @@ Example C27_example :
       [FInt 7; FNone; FBytes [97;98;10]; FBytes [99;100]; FExn; FNone; FBytes [100;10;101]; FInt 7].
 Proof. eexists _, _. repeat split. Qed.
 
-(* non-vacuity of C27_refines_partial: a block-buffered (bufsize 4) "r+" program mixing reads,
+(* (the disciplined fragment is contained in the theorem above) a block-buffered (bufsize 4) "r+" program mixing reads,
    seeks, buffered writes crossing the buffer size, flush and a final truncate is guarded *)
 Example C27_example_disciplined :
   let file := Some [97;98;10;99;100;10;101] in
@@ -149,4 +170,19 @@ Example C27_example_disciplined :
   exists f0 r0, sf_open Mrp 4 file = Some f0 /\ ref_open Mrp file = Some r0 /\
     guarded 40 f0 ops = true /\
     final_content 40 (snd (sf_run 40 f0 ops)) = [97;98;10;120;121;122;113;119;0].
+Proof. eexists _, _. repeat split. Qed.
+
+(* non-vacuity of C27_refines_outside_findings: a long mixed program on a line-buffered "a+" file --
+   readlines, sized and unsized readline, reads, appending writes with and without newline, seeks
+   through the three whences incl. a refused one, flush, tell, and a final truncate -- shows no
+   finding shape, has enough fuel, and ends with the stated contents *)
+Example C27_example_outside_findings :
+  let file := Some [97;98;10;99;100;10;101] in
+  let ops := [FTell; FSeek 0 0; FReadline (Some 2); FReadline None; FSeek 0 1; FWrite [120;10;121];
+              FSeek (-4) 2; FReadlines; FTell; FSeek (-50) 1; FRead (Some 3); FSeek 1 0; FWrite [122];
+              FFlush; FTell; FSeek 3 0; FRead None; FSeek 0 1; FWrite [10]; FSeek 0 2; FTell;
+              FTruncate 11] in
+  exists f0 r0, sf_open Map 1 file = Some f0 /\ ref_open Map file = Some r0 /\
+    no_finding_shape Map 60 f0 ops = true /\ fuel_suffices 60 f0 ops = true /\
+    final_content 60 (snd (sf_run 60 f0 ops)) = [97;98;10;99;100;10;101;120;10;121;122].
 Proof. eexists _, _. repeat split. Qed.
